@@ -510,3 +510,14 @@ M("c06-silent-int-set", "C06", "src/intron_graph.py", "        for intron in to_
   "        for intron in list(to_remove):\n            self.discard(intron)\n            del self.intron_correction_map[intron]", expect="silent", note="list() of an int-tuple set")
 M("c06-silent-membership-set", "C06", LRC, "        self.confirmed_features = set()\n        self.output_stats_file_name", "        self.confirmed_features = set()\n        self.seen_groups = set(read_groups) if read_groups else set()\n        self.output_stats_file_name",
   expect="silent", note="a new str set that is only stored")
+
+# ---------------------------------------------------------------- C18 (K3, K4)
+M("c18-revert-window", "C18", AIO, "                if region_start < gene_info.all_read_region_start or region_end > gene_info.all_read_region_end:\n                    gene_info.set_reference_sequence(region_start, region_end, self.chr_record)\n", "",
+  rule="K4", note="revert: reference window not widened to the loaded read")
+M("c18-window-only-left", "C18", AIO, "                region_end = max(gene_info.all_read_region_end, assignment.exons[-1][1])", "                region_end = gene_info.all_read_region_end",
+  rule="K4", note="window widened on the left side only")
+M("c18-rev-table-entry", "C18", "src/common.py", 'CANONICAL_REV_SITES = {("CT", "AC"), ("CT", "GC"), ("GT", "AT")}', 'CANONICAL_REV_SITES = {("CT", "AC"), ("GC", "CT"), ("GT", "AT")}',
+  rule="K3", note="one reverse-strand pair is not the reverse complement of a forward pair")
+M("c18-silent-window-helper", "C18", AIO, "                region_start = min(gene_info.all_read_region_start, assignment.exons[0][0])\n                region_end = max(gene_info.all_read_region_end, assignment.exons[-1][1])\n                if region_start < gene_info.all_read_region_start or region_end > gene_info.all_read_region_end:\n                    gene_info.set_reference_sequence(region_start, region_end, self.chr_record)",
+  "                new_start = min(gene_info.all_read_region_start, assignment.exons[0][0])\n                new_end = max(gene_info.all_read_region_end, assignment.exons[-1][1])\n                if (new_start, new_end) != (gene_info.all_read_region_start, gene_info.all_read_region_end):\n                    gene_info.set_reference_sequence(new_start, new_end, self.chr_record)",
+  expect="silent", note="same widening, locals renamed and guard rewritten")
